@@ -115,7 +115,8 @@ if __name__ == "__main__":
             r = json.loads((d / "result.json").read_text()) if (d / "result.json").exists() else {}
             tier = "quick" if (r.get("quick") or {}).get("exit") == 1 else "thorough" if (r.get("thorough") or {}).get("exit") == 1 else "-"
             rows.append(f"| {d.name} | {m.get('property')} | {str(m.get('summary', ''))[:160].replace('|', '/')} | "
-                        f"{str(m.get('needs', ''))[:160].replace('|', '/')} | {'yes (' + tier + ')' if r.get('detected') else 'NO'} |")
+                        f"{str(m.get('needs', ''))[:160].replace('|', '/')} | "
+                        f"{'yes (' + tier + ')' if r.get('detected') else ('superseded by a repair (see meta.json)' if str(m.get('status', '')).startswith('superseded') else 'NO')} |")
         print("| seed | property | change | needs | caught |\n|---|---|---|---|---|\n" + "\n".join(rows))
     elif cmd == "record":
         # validate + run (quick; thorough too when quick misses) and store the outcome next to the seed
@@ -125,6 +126,9 @@ if __name__ == "__main__":
         r2 = run(seed, "thorough") if (r and r["exit"] == 0) else None
         res = {"validation": v, "quick": r, "thorough": r2,
                "detected": bool((r and r["exit"] == 1) or (r2 and r2["exit"] == 1))}
+        m = json.loads((seed / "meta.json").read_text())
+        if str(m.get("status", "")).startswith("superseded"):
+            res["note"] = m["status"]
         (seed / "result.json").write_text(json.dumps(res, indent=1) + "\n")
         print(json.dumps({"seed": seed.name, "valid": v.get("valid"), "detected": res["detected"],
                           "quick_exit": r and r["exit"], "thorough_exit": r2 and r2["exit"]}))
